@@ -387,6 +387,11 @@ fn make_style_sections<'a>(
     let mut curr = 0;
     for (start_, end_) in submatches {
         let (start, end) = (*start_, *end_);
+        // Ignore submatch coordinates that do not describe a substring of the line
+        // (out of range, not on character boundaries, overlapping or reversed).
+        if start < curr || end < start || line.get(start..end).is_none() {
+            continue;
+        }
         if start > curr {
             sections.push((non_match_style, &line[curr..start]))
         };
